@@ -104,6 +104,8 @@ def run(tier, seed, mutant=None, only_validate=False):
                 for i in ((2,) if tier == "quick" else (1, 2, 3)) for c in ("future", "coro", "sync")]
         # intervals given as strings (convert_interval): seconds, hours, whole days
         cfgs += [{"kind": "rate_limit", "interval": i, "cons": ["future"], "max_elems": 3} for i in ("2s", "1d", "36h")]
+        # ... fractional and compound strings (pandas' grammar, not a "<digits><unit>" pattern)
+        cfgs += [{"kind": "rate_limit", "interval": i, "cons": ["future"], "max_elems": 3} for i in ("2.0s", "1min 30s", "0.05min", "3000ms")]
         cfgs += [{"kind": "rate_limit", "interval": 2, "cons": [c], "max_elems": ne, "faults": True} for c in ("future", "coro")]
         cfgs += [{"kind": "rate_limit", "interval": 2, "cons": ["future"], "max_elems": ne, "falsy": {"none": 2, "zero": 3}}]
         # a caller that does not wait (a plain loop-less Stream connected in front, collect().flush(), ...): the node must do its
